@@ -9,12 +9,13 @@ patch, ids = sys.argv[1], sys.argv[2:]
 tmp = tempfile.mkdtemp(prefix="walrus-mut.")
 try:
     repo = os.path.join(tmp, "repo")
-    subprocess.check_call(["rsync", "-a", "--exclude", "target", "--exclude", ".git", "--exclude", "wal_files", "--exclude", "figures",
-                           "--exclude", "*.csv", "--exclude", "octopii/openraft", "/repo/", repo + "/"])
+    subprocess.check_call(["git", "-C", "/repo", "worktree", "add", "-q", "--detach", repo, "HEAD"])
     if patch != "-":
-        r = subprocess.run(["patch", "-p1", "-s", "-d", repo, "-i", os.path.abspath(patch)])
+        r = subprocess.run(["git", "-C", repo, "apply", "--3way", os.path.abspath(patch)], capture_output=True, text=True)
         if r.returncode != 0:
-            print("PATCH FAILED"); sys.exit(3)
+            print("PATCH FAILED", r.stderr[-500:]); sys.exit(3)
+        if os.environ.get("MUT_SAVE_REBASED"):
+            open(os.environ["MUT_SAVE_REBASED"], "w").write(subprocess.run(["git", "-C", repo, "diff", "HEAD"], capture_output=True, text=True).stdout)
     env = dict(os.environ, VERIF_REPO=repo, VERIF_EVIDENCE_DIR=os.path.join(tmp, "evidence"),
                VERIF_REPLAY_DIR=os.path.join(tmp, "replays"), VERIF_BUILD_DIR=os.path.join(tmp, "build"))
     worst = 0
@@ -27,4 +28,6 @@ try:
         worst = max(worst, p.returncode)
     sys.exit(worst)
 finally:
+    subprocess.run(["git", "-C", "/repo", "worktree", "remove", "--force", os.path.join(tmp, "repo")], capture_output=True)
     shutil.rmtree(tmp, ignore_errors=True)
+    subprocess.run(["git", "-C", "/repo", "worktree", "prune"], capture_output=True)
